@@ -463,13 +463,17 @@ class Gen:
     self.funcs.append((f, 0, False))
 
   def gen_generic(self):
-    """TypeVar functions and a Generic class with parameterised instances."""
+    """TypeVar functions and Generic classes (one or two parameters, the
+    constructor not necessarily in template order) with several differently
+    parameterised instances."""
     r = self.r
     if not getattr(self, "_tv", False):
       self.emit("T = TypeVar('T')")
+      self.emit("KT = TypeVar('KT')")
+      self.emit("VT = TypeVar('VT')")
       self._tv = True
     k = r.random()
-    if k < 0.4:
+    if k < 0.25:
       f = self.fresh("f")
       self.emit("def %s(x: T) -> %s:" % (f, r.choice(["T", "List[T]", "Optional[T]", "Tuple[T, int]"])))
       self.emit("  return %s" % "ANYV")
@@ -477,27 +481,62 @@ class Gen:
       c = self.fresh("K")
       self.emit("%s = %s(%s)" % (c, f, self.scalar()))
       self.consts.append((c, "const"))
-    else:
-      g = self.fresh("G")
+      return
+    g = self.fresh("G")
+    lits = ["1", "'s'", "1.5", "b'x'", "True", "None"]
+    if k < 0.65:
       self.emit("class %s(Generic[T]):" % g)
       self.emit("  def __init__(self, v: T):")
       self.emit("    self.v = v")
       self.emit("  def get(self) -> T:")
       self.emit("    return self.v")
-      self.emit("  def put(self, v: T) -> None:")
-      self.emit("    self.v = v")
+      if r.random() < 0.6:
+        self.emit("  @property")
+        self.emit("  def val(self) -> %s:" % r.choice(["T", "Optional[T]", "T"]))
+        self.emit("    return self.v")
+      if r.random() < 0.4:
+        self.emit("  def put(self, v: T) -> None:")
+        self.emit("    self.v = v")
+      if r.random() < 0.3:
+        self.emit("  def items(self) -> List[T]:")
+        self.emit("    return [self.v]")
       self.emit()
-      self.generics.append(g)
-      for _ in range(r.randrange(1, 3)):
-        c = self.fresh("K")
-        self.emit("%s = %s(%s)" % (c, g, self.scalar()))
-        self.consts.append((c, "const"))
+      mk = lambda: "%s(%s)" % (g, r.choice(lits))
+      n_inst = r.randrange(2, 4)
+    else:
+      self.emit("class %s(Generic[KT, VT]):" % g)
+      params = [("k", "KT"), ("v", "VT")]
+      if r.random() < 0.6:
+        params.reverse()          # constructor order != template order
+      self.emit("  def __init__(self, %s):" % ", ".join("%s: %s" % p for p in params))
+      self.emit("    self.k = k")
+      self.emit("    self.v = v")
+      self.emit("  def first(self) -> KT:")
+      self.emit("    return self.k")
       if r.random() < 0.5:
-        f = self.fresh("f")
-        self.emit("def %s():" % f)
-        self.emit("  return %s(%s)" % (g, self.scalar()))
-        self.emit()
-        self.funcs.append((f, 0, False))
+        self.emit("  def second(self) -> VT:")
+        self.emit("    return self.v")
+      if r.random() < 0.5:
+        self.emit("  @property")
+        self.emit("  def pair(self) -> Tuple[KT, VT]:")
+        self.emit("    return (self.k, self.v)")
+      self.emit()
+
+      def mk():
+        a, b = r.sample(lits[:5], 2)
+        return "%s(%s, %s)" % (g, a, b)
+      n_inst = r.randrange(1, 3)
+    self.generics.append(g)
+    for _ in range(n_inst):
+      c = self.fresh("K")
+      self.emit("%s = %s" % (c, mk()))
+      self.consts.append((c, "const"))
+    if r.random() < 0.5:
+      f = self.fresh("f")
+      self.emit("def %s():" % f)
+      self.emit("  return %s" % mk())
+      self.emit()
+      self.funcs.append((f, 0, False))
 
   def gen_alias(self):
     r = self.r
